@@ -480,9 +480,22 @@ Definition ewritten (a : eattr) (e : aevent) : eval :=
   | EStyle => ES (if str_eqb (av_style e) n_star_default then n_default else av_style e)
   | EText => ES (trim_space (av_text e))
   end.
+(* the speaker name cell: the writer replaces commas by semicolons; a comma-free name is written as it is *)
+Lemma name_cell_id n : ~ In 44 n -> name_cell n = n.
+Proof.
+  unfold name_cell. induction n as [|c r IH]; intros H; [reflexivity|]. cbn [map].
+  destruct (c =? 44) eqn:E; [apply N.eqb_eq in E; subst c; exfalso; apply H; left; reflexivity|].
+  rewrite IH; [reflexivity | intros Hi; apply H; right; exact Hi].
+Qed.
+Lemma name_cell_nocomma n : ~ In 44 (name_cell n).
+Proof.
+  unfold name_cell. intros H. apply in_map_iff in H. destruct H as (c & E & _).
+  destruct (c =? 44) eqn:Ec; [discriminate E|]. apply N.eqb_neq in Ec. exact (Ec E).
+Qed.
 Lemma decode_written a e : event_ok e -> decode_ecell a (event_cell_string a e) = Some (ewritten a e).
 Proof.
-  intros (Hs & He & Hl & Hml & Hmr & Hmv & _). destruct a; cbn [decode_ecell event_cell_string ewritten];
+  intros (Hs & He & Hl & Hml & Hmr & Hmv & _ & Hnm & _). destruct a; cbn [decode_ecell event_cell_string ewritten];
+    try rewrite (name_cell_id _ Hnm);
     try (rewrite atoi_itoa_z_all by assumption; reflexivity); try reflexivity.
   - rewrite (parse_time_format _ He). reflexivity.
   - destruct (av_marked e) as [ [|]|]; reflexivity.
@@ -491,6 +504,7 @@ Qed.
 Lemma written_ecell_nocomma a e : event_ok e -> a <> EText -> ~ In 44 (event_cell_string a e).
 Proof.
   intros (Hs & He & _ & _ & _ & _ & Hef & Hnm & Hst) Ha. destruct a; cbn [event_cell_string]; try assumption;
+    try apply name_cell_nocomma;
     try (apply cell_clean_nocomma, itoa_z_clean); try (apply cell_clean_nocomma, format_ssa_clean; lia).
   - destruct (av_marked e) as [ [|]|]; vm_compute; intros H; repeat (destruct H as [H|H]; [discriminate|]); exact H.
   - contradiction.
